@@ -65,10 +65,11 @@ Fixpoint env_set (who : N) (c : codec) (e : env) : env :=
   end.
 
 (* ---- slack allowed between the model's data-buffer allocations and Go's TotalAlloc delta:
-   frame key/series slices (≈ 80 B per decoded series, doubled by append growth), error values
+   frame key/series slices (76 B per decoded series, up to 4x through append growth; a series can
+   take as little as 4 bytes on the wire), error values
    with stack traces, the lo.Keys slice of the invalid-sequence message ---- *)
 Definition alloc_slack (nbytes nkeys nstates : N) : N :=
-  64 * nbytes + 512 * nkeys + 64 * nstates + 16384.
+  128 * nbytes + 512 * nkeys + 64 * nstates + 16384.
 
 (* what "not out of proportion to the input" means for the monitor: linear in the input (and in
    the size of the agreed channel set, which is not wire-controlled) plus an absolute constant
